@@ -13,6 +13,7 @@ All theorems are about the model Ymq/Model/Gf2Small.lean (tied to the code by th
 -/
 import Ymq.Lemmas.Gf2SmallCallsite
 import Ymq.Lemmas.Gf2SmallInverse
+import Ymq.Lemmas.Gf2SmallHang
 import Ymq.Model.Gf2Genblock
 
 namespace Ymq.C14Small
@@ -281,6 +282,35 @@ theorem genblock_accepts (dbg : Bool) (b : Ymq.Gf2.SparseOpt) (y : List Nat) (ys
     genblock dbg b (y :: ys) = .accepted 0 y := by
   unfold genblock genblockFrom
   simp only [hg, hr, if_true]
+
+open Ymq.Gf2Genblock Ymq.Gf2 in
+/-- L3, Lean link for the hang rule. The Gram matrix tested by `genblock` is `Pᵗ·P` with
+`P = B·mul_aab_opt(B, y)`, so its rank is at most `rank B` (`gram_rank_le`, Mathlib `Matrix.rank` of
+the dense matrix `sparseMat k cols`, repeated indices cancelling in pairs): when `rank B < 64` the model
+of `genblock` refuses EVERY stream of blocks (one 64-bit word per column), without panic — the real loop
+never ends. `rank B < 64` implies `rank (BᵗB)³ < 64`, the oracle's rule; PARTIAL with respect to that
+rule: the case `rank B ≥ 64 > rank (BᵗB)³` needs the matrix semantics of `mul_aab_opt`
+(`ay = Bᵗ·(B·y)`, hence `Gram = yᵗ(BᵗB)³y`), which is not proved. -/
+theorem genblock_never_ends_low_rank (dbg : Bool) (k : Nat) (cols : List (List Nat)) (ys : List (List Nat))
+    (hk64 : 64 ≤ k) (hk : k ≤ 2 ^ 32) (hn : cols.length ≤ 2 ^ 32) (hwf : ∀ col ∈ cols, ∀ a ∈ col, a < k)
+    (hrank : (sparseMat k cols).rank < 64)
+    (hys : ∀ y ∈ ys, y.length = cols.length ∧ ∀ w ∈ y, w < 2 ^ 64) :
+    genblock dbg (qsOptimize k cols) ys = .exhausted ys.length := by
+  apply genblock_never_ends
+  exact genblock_refuses_all dbg k cols ys hk hn hwf hrank (fun y hy =>
+    ⟨(hys y hy).2, gramOf_total k cols y hk64 hk hn hwf (hys y hy).1⟩)
+
+open Ymq.Gf2Genblock Ymq.Gf2 in
+/-- concrete witness: the 64 x 2 matrix with two columns `e₀` (any matrix with fewer than 64 columns
+has rank below 64): no admissible block exists, the loop can never end, for EVERY random stream -/
+theorem genblock_never_ends_witness (dbg : Bool) (ys : List (List Nat))
+    (hys : ∀ y ∈ ys, y.length = 2 ∧ ∀ w ∈ y, w < 2 ^ 64) :
+    genblock dbg (qsOptimize 64 [[0], [0]]) ys = .exhausted ys.length := by
+  apply genblock_never_ends_low_rank dbg 64 [[0], [0]] ys (by decide) (by decide) (by decide)
+    (by decide) ?_ hys
+  have := Matrix.rank_le_width (sparseMat 64 [[0], [0]])
+  simp only [List.length_cons, List.length_nil] at this
+  omega
 
 /-! ### non-vacuity and counter-witnesses (small sizes: the theorems hold for every `n`; the same
 matrices padded with null rows to 64x64 are corpus requests of the K/O streams) -/
